@@ -237,7 +237,19 @@ def check(ctx):
                 for a in flat(y.data['value']):
                     if isinstance(a, TupleT):
                         cand_vols |= alt_ids(a.items[1])
+        rel_vols = set()
+        for n_ in pr.b.nodes('append'):
+            for a in flat(n_.data['value']):
+                if isinstance(a, Obj) and 'path_maker_type' in a.fields and \
+                        isinstance(strip(a.fields['path_maker_type']), EnumVal) and \
+                        strip(a.fields['path_maker_type']).name == 'RelativePaths':
+                    rel_vols |= alt_ids(a.fields.get('volume', NONE))
         for s_ in strips:
+            ctx.ob('R02.4', 'the prefix stripped is, for every relative candidate, the volume '
+                            'paired with that candidate', rel_vols <= alt_ids(s_), node=w,
+                   message='the writer strips %s but relative candidates are paired with other '
+                           'volumes too (e.g. --trash-dir reached through a symlink: restore '
+                           'joins the volume of the directory as given)' % short(s_, 80))
             extra = [a for a in flat(s_) if cid(a) not in cand_vols and
                      not any(is_call(strip(a), 'os.path.abspath') for _ in [0])]
             ctx.ob('R02.4', 'the prefix stripped by the writer is the candidate\'s volume',
